@@ -18,6 +18,9 @@ package rueidisaside
 //@   loop 0: invariant [C39 every-load-is-followed-by-a-store-or-a-release-of-the-lock] calls(fn) <= calls(Exec, 2) + calls(Exec, 3)
 //@   assert [C39 the-waiter-is-registered-for-the-key-before-the-key-is-read] at DoCache#1: calls(register, 1) == calls(DoCache, 1) + 1
 //@   loop 0: invariant [C39 the-waiter-is-registered-for-the-key-before-the-key-is-read] calls(register, 1) == calls(DoCache, 1)
+//@   assert [C39 the-lock-is-released-under-a-context-of-its-own-not-the-callers] at Exec#3: calls(Background, 1) == calls(Exec, 3) + 1 && arg1 == returned(Background)
+//@   assert [C39 a-dead-holders-lock-is-released-under-a-context-of-its-own] at Exec#4: calls(Background, 2) == calls(Exec, 4) + 1 && arg1 == returned(Background)
+//@   loop 0: invariant [C39] calls(Background, 1) == calls(Exec, 3) && calls(Background, 2) == calls(Exec, 4)
 //@   assert [C39 the-lock-is-taken-with-this-clients-id] at Exec#1: arg0 == acquireLock && len(arg3) == 1 && arg3[0] == key && len(arg4) == 2 && arg4[0] == id
 
 //@ func Client.register
